@@ -173,7 +173,10 @@ pub fn run(tier: Tier) -> i32 {
             }
         }
     }
-    rep.rule = "state = (ordered rule list of <= 3/4 rules whose patterns have 1-2 (thorough also 1-3) columns over {*, a, b, (a|b)} and whose output names the rule and references $1,$2,$3; feature list of length 0-3 over {a,b,c}); the real rewriter (rule-list hook and rewrite.def text with all section assignments of two rules) must return what the first rule in list order that matches position-wise as a prefix returns, or nothing; distinct = distinct outputs".into();
+    // dictionary level: the trainer applies each section's rewriter and falls back to the
+    // ORIGINAL features when that section has no matching rule
+    crate::props::train::dict_level_c17(tier, &mut st);
+    rep.rule = "state = (ordered rule list of <= 3/4 rules whose patterns have 1-2 (thorough also 1-3) columns over {*, a, b, (a|b)} and whose output names the rule and references $1,$2,$3; feature list of length 0-3 over {a,b,c}); the real rewriter (rule-list hook and rewrite.def text with all section assignments of two rules) must return what the first rule in list order that matches position-wise as a prefix returns, or nothing; plus, for really trained models whose rewrite.def has sections with and without catch-all rules, the connection classes and bigram.left/right tuples must be those of the reference rewrite (else: features unchanged) followed by the reference expansion; distinct = distinct outputs".into();
     rep.bounds = json!({"max_rules": tier.pick(3, 4), "pattern_columns": tier.pick("1-2", "1-2 (4 rules), 1-3 (3 rules)"), "feature_len": "0-3"});
     rep.assumptions = vec!["a pattern longer than the feature list does not match (the statement is silent; the code agrees)".into()];
     rep.finish(
@@ -183,6 +186,8 @@ pub fn run(tier: Tier) -> i32 {
             "cases_without_match",
             "cases_where_a_later_rule_shares_a_prefix_with_a_non_adjacent_earlier_rule",
             "rewrite_def_text_cases",
+            "trained_models_with_rewrite_rules",
+            "rows_checked_for_connection_classes",
         ],
     )
 }
